@@ -40,4 +40,17 @@ Fixpoint trace (e : env) (c : chain) (h : list step) : list result :=
   | s :: h' => let r := deliver e c (fst s) (snd s) in r :: trace e (r_chain r) h'
   end.
 
+(* A message can also be executed without its effects ever reaching the chain: in simulation or CheckTx mode, or as an
+   early message of a transaction whose later message fails.  The SDK runs the handler on a branch and drops the branch
+   whatever the outcome; the caller still sees the outcome. *)
+Definition simulate (e : env) (c : chain) (plan : list directive) (t : tx) : outcome := r_out (deliver e c plan t).
+
+Inductive mode := Delivered | Discarded.
+Definition mstep := (mode * step)%type.
+Definition run_mstep (e : env) (c : chain) (s : mstep) : chain :=
+  match fst s with Delivered => run_step e c (snd s) | Discarded => c end.
+Definition run_modes (e : env) (c : chain) (h : list mstep) : chain := fold_left (run_mstep e) h c.
+Definition delivered (h : list mstep) : list step :=
+  map snd (filter (fun s => match fst s with Delivered => true | Discarded => false end) h).
+
 Definition is_ok (r : result) : bool := match r_out r with OOk _ => true | _ => false end.
